@@ -57,6 +57,26 @@ class Alphabet:
         return rng.choice(WEIGHTS)
 
 
+def acc_op(rng, d, a, al):
+    """probe the scalar look-up accessors of slot `a` (root kind d["k"]); spec: HgViews!AccExpect"""
+    k = d["k"]
+    op = {"op": "Acc", "a": a, "xs": [], "ks": []}
+    n = rng.randint(0, 3)
+    if k in ("Bin", "CentrallyBin"):
+        op["xs"] = [rng.choice(al.xs) for _ in range(n)]
+    elif k == "SparselyBin":
+        fin = [v for v in al.xs if v[1] != 0]
+        op["xs"] = [rng.choice(fin) for _ in range(n)] if fin else []
+        op["ks"] = [rng.randint(-4, 6) for _ in range(rng.randint(0, 3))]
+    elif k == "Categorize":
+        op["ks"] = rng.sample(["a", "b", "zz", "NaN", "entries", "None"], rng.randint(0, 3))
+    elif k in ("Label", "UntypedLabel"):
+        op["ks"] = rng.sample(sorted(d["pairs"]) + ["zz", "entries"], rng.randint(0, 2))
+    elif k in ("Index", "Branch"):
+        op["ks"] = [rng.randint(-1, len(d["vals"]) + 1) for _ in range(rng.randint(0, 3))]
+    return op
+
+
 def gen_generic(rng, d, nslots=3, nev=14, ops=None, cats=CATS, init=2):
     """a history over a pool of `nslots` aggregators that all share descriptor d"""
     ops = ops or {"Fill": 50, "Add": 12, "IAdd": 8, "Mul": 8, "Zero": 4, "Copy": 6}
@@ -151,6 +171,9 @@ def gen_generic(rng, d, nslots=3, nev=14, ops=None, cats=CATS, init=2):
                 out.append({"op": "FractionBuild", "t": t, "a": rng.choice(live), "b": rng.choice(live)})
             out.append({"op": "Drop", "s": t})
         elif op == "Read":
+            if rng.random() < 0.35:
+                out.append(acc_op(rng, d, rng.choice(live), al))
+                continue
             out.append({"op": "Read", "a": rng.choice(live), "which": rng.choice(["toJson", "repr", "hash", "children", "ndim"])})
         elif op == "Eq":
             a, b = rng.choice(live), rng.choice(live)
